@@ -64,6 +64,25 @@ func nameField(a core.Ammo) any {
 	return fmt.Sprintf("%T", a)
 }
 
+// idOf finds the id a provider attached to an ammo item.
+func idOf(a core.Ammo) (uint64, bool) {
+	if x, ok := a.(interface{ ID() uint64 }); ok {
+		return x.ID(), true
+	}
+	v := reflect.ValueOf(a)
+	for v.Kind() == reflect.Ptr && !v.IsNil() {
+		v = v.Elem()
+	}
+	if v.Kind() == reflect.Struct {
+		for _, n := range []string{"ID", "id"} {
+			if f := v.FieldByName(n); f.IsValid() && f.Kind() == reflect.Uint64 {
+				return f.Uint(), true
+			}
+		}
+	}
+	return 0, false
+}
+
 func kinds() []*kind {
 	var ks []*kind
 	mk := func(name, typ string, render func(e int) []byte) {
@@ -197,7 +216,7 @@ func (r *c08run) scenario(x *vs.X) func(end, msg string) error {
 	ctx, cancel := context.WithCancel(context.Background())
 	x.OnAbort(cancel)
 	x.Deadline = time.Now().Add(time.Hour)
-	d := &Drv{P: p, Consumers: c.Consumers, Release: true, Extract: r.k.Extract}
+	d := &Drv{P: p, Consumers: c.Consumers, Release: true, Extract: r.k.Extract, IDOf: idOf}
 	n := bound(c.Limit, c.Passes, c.Entries)
 	if n < 0 {
 		d.StopAfter = 3*c.Entries + 1
@@ -271,6 +290,16 @@ func (r *c08run) check(end, msg string, n int) error {
 	}
 	if d.AfterFalse && !c.CancelAny {
 		return fmt.Errorf("END: Acquire returned ok=true after it had returned ok=false")
+	}
+	seenID := map[uint64]bool{}
+	for _, id := range d.IDs {
+		if seenID[id] {
+			return fmt.Errorf("IDS: ammo id %d was attached to two delivered items (ids %v)", id, d.IDs)
+		}
+		seenID[id] = true
+	}
+	if r.k.Name != "json" && len(d.IDs) != len(d.Items) {
+		return fmt.Errorf("IDS: %d of %d delivered items carry an id", len(d.IDs), len(d.Items))
 	}
 	want := make([]string, len(got))
 	for i := range want {
